@@ -125,7 +125,31 @@ def _contains_verdict(spec, v, base):
     return ok, n
 
 
+def judge_untyped(case):
+    """const / enum on a Rule without a source type: verdict by the documented comparison, accepted values come back unchanged"""
+    from utype.parser.rule import Rule
+    cname, cv, vs = case["constraint"], case["bound"], case["value"]
+    if cname not in ("const", "enum"):
+        raise HarnessError("bad untyped case")
+    bound = codec.decode(cv) if cname == "const" else [codec.decode(x) for x in cv]
+    try:
+        T = Rule.annotate(None, constraints={cname: bound})
+    except decl_errors():
+        return []
+    v = codec.decode(vs)
+    want = constraints.holds(cname, bound, v)
+    out = oracle.outcome(T, v)
+    if out[0] not in ("ok", "perr") or want is None:
+        return []
+    det = {"constraint": cname, "bound": codec.encode(bound), "value": vs, "outcome": out[0]}
+    if (out[0] == "ok") != bool(want):
+        return [(f"untyped-{cname}/{'accepts-invalid' if out[0] == 'ok' else 'rejects-valid'}/{'falsy-bound' if not (bound if cname == 'const' else all(bound)) else 'bound'}", det)]
+    return []
+
+
 def judge(case):
+    if case.get("part") == "untyped":
+        return judge_untyped(case)
     return run_case(case)["fails"]
 
 
@@ -226,3 +250,13 @@ def campaign(ctx):
         ctx.label("grid_cases", n)
         ctx.extra["int_grid_exhaustive"] = True
         ctx.extra["int_grid_cases"] = n
+        # const / enum on a rule WITHOUT a source type (nothing is converted: the value is compared as given), falsy constants included
+        pool = [None, 0, False, "", 1, True, "a", {"t": "float", "v": "1.0"}, {"t": "float", "v": "0.0"}, 5, {"t": "list", "v": []}, {"t": "list", "v": [1]}]
+        for cname, cvals in (("const", [None, 0, False, "", 1, "a", {"t": "list", "v": []}]), ("enum", [[None], [0, "a"], [False], ["", 1]])):
+            for cv in cvals:
+                for v in pool:
+                    case = {"part": "untyped", "constraint": cname, "bound": cv, "value": v}
+                    ctx.ev()
+                    ctx.nt(case)
+                    ctx.fail_all(judge_untyped(case), case)
+        ctx.extra["untyped_const_enum_grid_exhaustive"] = True
